@@ -989,3 +989,66 @@ def c10_r7(ctx):
     ctx.ob("whole program", nfunc > 2000, "%d functions scanned for truthiness tests of zero-valued quantities" % nfunc)
     if nfunc < 2000:
         raise AnalysisError("only %d functions scanned" % nfunc)
+
+
+@rule("C10", "R12", "K2", "what a caller hands over as a generator is stored only after it has been materialised",
+      min_instances=1, also=("C18", "C08"),
+      clause="Where some call site passes a generator (a generator expression, or a call of a local function that yields) for a "
+             "parameter, no implementation of the called method may keep that parameter as it is in long-lived state (self.x = p, "
+             "self.x[k] = p, self.x.append(p)): the first read exhausts it and every later read sees nothing.  It has to go through "
+             "tuple()/list()/sorted()/a comprehension first.  (PerDocumentWriter.add_vector_matcher hands add_vector_items() a "
+             "generator over the source reader's vector when documents are copied with add_reader(); the memory codec keeps vectors "
+             "in a dict.)")
+def c10_r12(ctx):
+    prog = ctx.prog
+    # 1. call sites with a generator-valued positional argument
+    gen_params = {}     # method name -> set of positional indices
+    for f in prog.functions.values():
+        localgens = set()
+        for x in ast.walk(f.node):
+            if isinstance(x, ast.FunctionDef) and x is not f.node and any(isinstance(y, (ast.Yield, ast.YieldFrom)) for y in ast.walk(x)):
+                localgens.add(x.name)
+        for c in norm.calls_in(f.node, include_nested_defs=True) if "include_nested_defs" in norm.calls_in.__code__.co_varnames else norm.calls_in(f.node):
+            # resolved callees only: a call on self reaches the implementations of the caller's own hierarchy
+            if not isinstance(c.func, ast.Attribute) or norm.canon(c.func.value) != "self" or f.cls is None:
+                continue
+            for i, a in enumerate(c.args):
+                a2 = norm.inline_defs(a, f.node) if isinstance(a, ast.Name) else a
+                if isinstance(a2, ast.GeneratorExp) or (isinstance(a2, ast.Call) and isinstance(a2.func, ast.Name) and a2.func.id in localgens):
+                    root = [b for b in prog.mro(f.cls) if hasattr(b, "methods") and c.func.attr in b.methods]
+                    gen_params.setdefault((c.func.attr, (root[-1] if root else f.cls).qualname), set()).add(i)
+    n = 0
+    materialisers = ("tuple", "list", "sorted", "set", "frozenset", "dict", "array")
+    for (name, rootq), idxs in sorted(gen_params.items()):
+        rootcls = prog.classes[rootq]
+        for g in prog.methods_named(name):
+            if g.cls is None or is_abstract_body(g) or rootcls not in prog.mro(g.cls):
+                continue
+            ps = [p_ for p_ in g.params if p_ not in ("self", "cls")]
+            for i in sorted(idxs):
+                if i >= len(ps):
+                    continue
+                p_ = ps[i]
+                n += 1
+                ctx.saw(g)
+                bad = None
+                rebound = any(isinstance(st, ast.Assign) and any(isinstance(t, ast.Name) and t.id == p_ for t in st.targets) for st in ast.walk(g.node))
+                if rebound:
+                    continue        # re-bound (usually to its materialised form): what is stored later is not the argument
+                for st in ast.walk(g.node):
+                    if isinstance(st, ast.Assign) and isinstance(st.value, ast.Name) and st.value.id == p_:
+                        for t in st.targets:
+                            root = t
+                            while isinstance(root, (ast.Subscript, ast.Attribute)):
+                                root = root.value
+                            if isinstance(t, (ast.Subscript, ast.Attribute)) and isinstance(root, ast.Name) and root.id == "self":
+                                bad = st
+                    if isinstance(st, ast.Call) and isinstance(st.func, ast.Attribute) and st.func.attr in ("append", "add", "setdefault") and \
+                            norm.canon(st.func.value).startswith("self.") and any(isinstance(a, ast.Name) and a.id == p_ for a in st.args):
+                        bad = st
+                ctx.ob(g, bad is None, "parameter `%s` (a generator at some call site of %s()) is not stored as it is" % (p_, name),
+                       detail="" if bad is None else "`%s` keeps the caller's one-shot generator: the second read of it is empty (use one of %s)"
+                       % (norm.canon(bad) if not isinstance(bad, ast.stmt) else norm.stmt_text(bad), "/".join(materialisers)),
+                       loc=ctx.nodeloc(g, bad) if bad is not None else g.loc)
+    if n < 1:
+        raise AnalysisError("no call site passes a generator to a method any more")
